@@ -30,6 +30,9 @@ def View.putOpt (v : View) : Option Fabric → View
   | some f => v.put f
   | none => v
 
+/-- the networks a view stands for in memory: the stored list and the `managed` flag, or the defaults -/
+def View.netsD (v : View) : List Nat × Bool := match v.nets with | some p => p | none => ([], false)
+
 /-- what a store holds, on the committed projections -/
 def viewOf (kv : KV) : View := { fabs := kv.fabs, nets := kv.nets }
 
@@ -142,6 +145,20 @@ theorem write_kv (n : Node) (f f' : Fabric) (hidx : f'.idx = f.idx) (hget : getF
       simp only []
       exact ⟨fun h => by simp at h, fun _ => hkv⟩
 
+/-- whatever the store answers, the node holds the new record afterwards -/
+theorem writeResult_get (n : Node) (f f' : Fabric) (hidx : f'.idx = f.idx) (hget : getFabric n f.idx = some f) :
+    getFabric (writeResult n f f').1 f.idx = some f' := by
+  have hg1 : getFabric (setFabric n f') f.idx = some f' := by
+    rw [getFabric_setFabric, hidx]; simp [hget]
+  unfold writeResult
+  split
+  · simp only [ok, getFabric, (markDeferred_fields _).1]; exact hg1
+  · have hfr := (storeFabric_spec (setFabric n f') f').1
+    rcases hr : storeFabric (setFabric n f') f' with ⟨n2, b⟩
+    rw [hr] at hfr
+    have hfab : n2.fabrics = (setFabric n f').fabrics := hfr.fabrics
+    cases b <;> (simp only [ok, getFabric]; rw [hfab]; exact hg1)
+
 /-- the fabric-scoped writes -/
 def isWriteOp : Op → Bool
   | .acl .. | .grp .. | .label .. | .fwrite _ => true
@@ -212,6 +229,83 @@ theorem sessOp_write_kv (cfg : Cfg) (n : Node) (sid : Nat) (mode : Mode) (op : O
     · cases hg : getFabric n mode.fab with
       | none => exact err _
       | some f => exact main f f rfl hg
+  | _ => simp [isWriteOp] at hw
+
+/-- what a fabric-scoped write does to the record of its fabric -/
+def applyWrite (op : Op) (f : Fabric) : Fabric :=
+  match op with
+  | .acl _ v => { f with acl := f.acl ++ [v] }
+  | .grp _ v => if f.grp.contains v then f else { f with grp := f.grp ++ [v] }
+  | .label _ v => { f with label := v }
+  | _ => f
+
+/-- **What the acknowledged record contains**: after a fabric-scoped write that is answered with
+success the node holds, for the fabric of the session, the record it held before with exactly the
+written change applied (`applyWrite`) -/
+theorem sessOp_write_mem (cfg : Cfg) (n : Node) (sid : Nat) (mode : Mode) (op : Op) (hw : isWriteOp op = true)
+    (hok : (sessOp cfg n sid mode op).2 = .ok) :
+    ∃ f, getFabric n mode.fab = some f ∧ getFabric (sessOp cfg n sid mode op).1 mode.fab = some (applyWrite op f) := by
+  have main : ∀ (f f' : Fabric), f'.idx = f.idx → getFabric n mode.fab = some f →
+      getFabric (writeResult n f f').1 mode.fab = some f' := by
+    intro f f' hidx hg
+    have hfi := getFabric_idx hg
+    have := writeResult_get n f f' hidx (by rw [hfi]; exact hg)
+    rwa [hfi] at this
+  cases op with
+  | acl s v =>
+    simp only [sessOp] at hok ⊢
+    split at hok
+    · simp at hok
+    · rename_i h0
+      simp only [h0, if_false]
+      cases hg : getFabric n mode.fab with
+      | none => rw [hg] at hok; simp at hok
+      | some f =>
+        rw [hg] at hok
+        simp only [] at hok ⊢
+        split at hok
+        · simp at hok
+        · rename_i h1
+          simp only [h1, if_false]
+          exact ⟨f, rfl, main f { f with acl := f.acl ++ [v] } rfl hg⟩
+  | grp s v =>
+    simp only [sessOp] at hok ⊢
+    split at hok
+    · simp at hok
+    · rename_i h0
+      simp only [h0, if_false]
+      cases hg : getFabric n mode.fab with
+      | none => rw [hg] at hok; simp at hok
+      | some f =>
+        rw [hg] at hok
+        simp only [] at hok ⊢
+        split at hok
+        · simp at hok
+        · rename_i h1
+          simp only [h1, if_false]
+          exact ⟨f, rfl, main f (if f.grp.contains v then f else { f with grp := f.grp ++ [v] }) (by split <;> rfl) hg⟩
+  | label s v =>
+    simp only [sessOp] at hok ⊢
+    split at hok
+    · simp at hok
+    · rename_i h0
+      simp only [h0, if_false]
+      split at hok
+      · simp at hok
+      · rename_i h1
+        simp only [h1, if_false]
+        cases hg : getFabric n mode.fab with
+        | none => rw [hg] at hok; simp at hok
+        | some f => exact ⟨f, rfl, main f { f with label := v } rfl hg⟩
+  | fwrite s =>
+    simp only [sessOp] at hok ⊢
+    split at hok
+    · simp at hok
+    · rename_i h0
+      simp only [h0, if_false]
+      cases hg : getFabric n mode.fab with
+      | none => rw [hg] at hok; simp at hok
+      | some f => exact ⟨f, rfl, main f f rfl hg⟩
   | _ => simp [isWriteOp] at hw
 
 /-- **RemoveFabric**: acknowledged - the fabric key is gone from the store (nothing else changed on
@@ -666,6 +760,8 @@ theorem seg_grows {n n' : Node} {mid : List KV} (hs : Seg n n' mid) : ∃ new, n
 /-- the history only grows the store history: no crash / reset-before-start-up / recovery reset
 (they rewind it or start a new one) and no factory reset in it -/
 def growOnly (ops : List Op) : Prop := ∀ op ∈ ops, rewinds op = false ∧ op ≠ .freset
+
+instance (ops : List Op) : Decidable (growOnly ops) := by unfold growOnly; infer_instance
 
 theorem run_grows (cfg : Cfg) : ∀ (ops : List Op) (n : Node), growOnly ops →
     ∃ new, (run cfg n ops).hist = new ++ n.hist := by
